@@ -49,7 +49,9 @@ def _nothing_follows(b, blk, blocks):
     k = blocks.index(blk)
     end = blk[1]
     for outer in reversed(blocks[:k]):
-        if re.search(r"[^\s},]", b[end + 1:outer[1]]):
+        # the other arms of a `match` are alternatives, not statements that follow
+        is_match_body = re.search(r"\bmatch\s+[^{};]*$", b[:outer[0]]) is not None
+        if not is_match_body and re.search(r"[^\s},]", b[end + 1:outer[1]]):
             return False
         end = outer[1]
         if _is_loop_body(b, outer[0]):
